@@ -196,6 +196,8 @@ func (rs *ResourceSchema) IsMissingOrNull() bool {
 // as metadata, replicas and spec.template.spec
 func SchemaForResourceType(t yaml.TypeMeta) *ResourceSchema {
 	initSchema()
+	schemaLock.RLock()
+	defer schemaLock.RUnlock()
 	rs, found := globalSchema.schemaByResourceType[t]
 	if !found {
 		return nil
@@ -414,6 +416,8 @@ func IsNamespaceScoped(typeMeta yaml.TypeMeta) (bool, bool) {
 	if isInitSchemaNeededForNamespaceScopeCheck() {
 		initSchema()
 	}
+	schemaLock.RLock()
+	defer schemaLock.RUnlock()
 	isNamespaceScoped, found := globalSchema.namespaceabilityByResourceType[typeMeta]
 	return isNamespaceScoped, found
 }
